@@ -110,6 +110,7 @@ PROPS = {
         assumptions=["TypeId is an injective name of a type (identities modelled as Nat)"],
     ),
     'C05': dict(
+        translators=['extract_impl_tables.py'],
         streams=[dict(name='registry', quick=800, thorough=15000, filter=only('C05:')),
                  dict(name='meta', pg=True, mode='meta', quick=60, thorough=700, filter=only('C05:'), also_docs=True),
                  dict(name='stdall', pg=True, mode='stdall', gen='gen_std.py', quick=60, thorough=700, filter=only('C05:')),
@@ -149,15 +150,17 @@ PROPS = {
                      "rustc compiles the generated programs as modelled"],
     ),
     'C16': dict(
+        translators=['extract_impl_tables.py'],
         streams=[dict(name='meta', pg=True, mode='meta', quick=60, thorough=700, filter=only('C16:'), also_docs=True),
                  dict(name='tinfo', pg=True, mode='tinfo', quick=60, thorough=700, filter=only('C16:')),
                  dict(name='stdall', pg=True, mode='stdall', gen='gen_std.py', quick=60, thorough=700, filter=only('C16:')),
                  dict(name='twins', pg=True, mode='twins', gen='gen_std.py', quick=20, thorough=20, filter=only('C16:'))],
         rule=META_RULE,
-        trusted_base=COMMON_TB + ["rustc's TypeId is an injective name of a type; the corpus is a generated Rust program compiled against /repo on every run"],
+        trusted_base=COMMON_TB + ["rustc's TypeId is an injective name of a type; the corpus is a generated Rust program compiled against /repo on every run", "translators/extract_impl_tables.py re-extracts, on every run, the `type Identity` / forwarding body of every built-in impl, the primitive table, tuple arities, NonZero rows (src/impls.rs) and the accepted capture_docs values and attribute keywords (derive/src/attr.rs); regular-expression reading of the source, an unreadable source yields empty tables and breaks extracted_*_ok by name"],
         assumptions=["pairs are drawn from a finite generated corpus (closed under sub-expressions); the theorems quantify over all type expressions of the modelled grammar"],
     ),
     'C04': dict(
+        translators=['extract_impl_tables.py'],
         streams=[dict(name='std', pg=True, mode='std', gen='gen_std.py', quick=120, thorough=2500, filter=only('C04:'), also_docs=True),
                  dict(name='tinfo', pg=True, mode='tinfo', gen='gen_std.py', quick=120, thorough=2500, filter=only('C04:')),
                  dict(name='stdall', pg=True, mode='stdall', gen='gen_std.py', quick=120, thorough=2500, filter=only('C04:'))],
@@ -193,9 +196,10 @@ PROPS = {
                      "indices of non-skipped variants are pairwise distinct (the codec derive rejects anything else at compile time)"],
     ),
     'C20': dict(
+        translators=['extract_impl_tables.py', 'extract_typestate.py'],
         custom='neg', streams=[], classes='bld,attr', n=dict(quick=480, thorough=6000), filter=only('C20:'),
         rule="generated programs, each its own cargo bin target (compiled on its own): (bld) builder chains in MetaForm and PortableForm - a valid chain (type-level setters around .path, composite with unit/named/unnamed field builders with name/ty-or-compact/type_name/docs in any order, variants with index/discriminant/docs/fields) or ONE mutation of it: path dropped or repeated, terminal dropped/moved/repeated, field kind swapped (named<->unnamed, ->unit), ty dropped or repeated, name added/dropped/repeated, index dropped or repeated; (attr) #[derive(TypeInfo)] on a struct with 0-2 parameters (inline TypeInfo bounds, so only the derive can reject) or a union, with attribute lists drawn from bounds / skip_type_params / capture_docs (valid values in several spellings, invalid ones) / crate / replace_segment / unknown keys, duplicated inside one attribute or across two, and bounds leaving a non-skipped parameter out (also after a skipped one). rustc's verdict per program vs Typestate.accepts / deriveAccepts. Non-trivial: a rejected program.",
-        trusted_base=COMMON_TB + ["rustc is the judge; the typestate automaton and the attribute validator are read off src/build.rs and derive/src/attr.rs and tied only by these verdicts"],
+        trusted_base=COMMON_TB + ["rustc is the judge; the typestate automaton and the attribute validator are read off src/build.rs and derive/src/attr.rs and tied by these verdicts (the accepted capture_docs strings and the builder signatures also by translation: translators/extract_typestate.py re-reads every inherent impl of src/build.rs - receiver type arguments, method, result type, closure bounds - on every run)", "translators/extract_impl_tables.py re-extracts, on every run, the `type Identity` / forwarding body of every built-in impl, the primitive table, tuple arities, NonZero rows (src/impls.rs) and the accepted capture_docs values and attribute keywords (derive/src/attr.rs); regular-expression reading of the source, an unreadable source yields empty tables and breaks extracted_*_ok by name"],
         assumptions=["TypeBuilder::<_, PathAssigned>::default() compiles and panics at run time (no ill-formed value results): outside the negative grammar, see DESIGN.md §6"],
     ),
     'C13': dict(
